@@ -29,12 +29,13 @@ CONFIGS = {
     "A": dict(cwd=None, args=["check", "--workspace"],
               expect=["libfs-rlib", "libxcp-rlib", "xcp-executable"]),
     # build without the Linux backend (libfs/src/fallback.rs) -- named by C05
-    "B": dict(cwd=None, args=["check", "-p", "libfs", "-p", "libxcp", "--no-default-features",
-                               "--features", "libxcp/parblock"],
-              expect=["libfs-rlib", "libxcp-rlib"]),
+    # (libxcp depends on libfs with default features, so only libfs itself can be built this way)
+    "B": dict(cwd=None, args=["check", "-p", "libfs", "--no-default-features"],
+              expect=["libfs-rlib"]),
     # parblock compiled out
-    "C": dict(cwd=None, args=["check", "-p", "xcp", "--no-default-features", "--features", "use_linux"],
-              expect=["libfs-rlib", "libxcp-rlib", "xcp-executable"]),
+    # (xcp depends on libxcp with default features, so this is decided at the libxcp level)
+    "C": dict(cwd=None, args=["check", "-p", "libxcp", "--no-default-features", "--features", "use_linux"],
+              expect=["libfs-rlib", "libxcp-rlib"]),
     # controls: tiny crate of bad/good twins analysed by the same driver
     "F": dict(cwd=os.path.join(VERIF, "fixtures"), args=["check"], expect=["xcpv_fixtures-rlib"]),
 }
@@ -52,6 +53,7 @@ def tree_hash(cfg):
     """Hash of everything that can influence the facts of configuration cfg."""
     h = hashlib.sha256()
     h.update(cfg.encode())
+    h.update(repr(CONFIGS[cfg]["args"]).encode())
     _sha_file(h, DRIVER)
     root = CONFIGS[cfg]["cwd"] or REPO
     files = []
